@@ -249,6 +249,20 @@ class State:
         return s
 
 
+def strip_keyview(v):
+    """list(D.keys()) / tuple(D) / D.keys(): for iteration order, emptiness and membership this is D itself"""
+    while isinstance(v, Sym) and isinstance(v.key, tuple) and v.key:
+        k = v.key
+        if k[0] == "call" and k[1] in ("list", "tuple") and len(k) >= 3 and len(k[2]) == 1 and (len(k) < 4 or not k[3]):
+            v = k[2][0]
+            continue
+        if k[0] == "mcall" and len(k) >= 4 and k[2] == "keys" and not k[3]:
+            v = k[1]
+            continue
+        break
+    return v
+
+
 MAX_LEAVES = 4096
 CMP = {ast.Eq: "==", ast.NotEq: "!=", ast.Lt: "<", ast.LtE: "<=", ast.Gt: ">", ast.GtE: ">="}
 
@@ -871,6 +885,7 @@ class Summarizer:
         return self.truthy(v)
 
     def truthy(self, v):
+        v = strip_keyview(v)        # list(D.keys()) is empty exactly when D is
         if hasattr(self.h, "truthy_first"):
             f = self.h.truthy_first(self, v)
             if f is not None:
